@@ -10,7 +10,7 @@ COMP = {"A": "T", "C": "G", "G": "C", "T": "A"}
 
 
 def gen_gene(r, name="GEN", pseudogene=None, n_exons=None, n_alleles=None, fusions=None, deletion=None, custom=None,
-             cigar_indels=False, same_strand=False, allow_mnp=True, offsets=(100000000, 200000000)):
+             cigar_indels=False, same_strand=False, allow_mnp=True, offsets=(100000000, 200000000), scale=1):
     pseudogene = r.random() < 0.6 if pseudogene is None else pseudogene
     n_exons = n_exons or r.randint(2, 4)
     lens = {"up": r.randint(5, 12)}
@@ -23,6 +23,8 @@ def gen_gene(r, name="GEN", pseudogene=None, n_exons=None, n_alleles=None, fusio
             order.append(f"i{e}")
     lens["down"] = r.randint(8, 30)
     order.append("down")
+    if scale != 1:
+        lens = {n: v * scale for n, v in lens.items()}   # longer regions, same number of variants: sparser sites
     G = sum(lens.values())
     L = G * (2 if pseudogene else 1)
     seq = "".join(r.choice("ACGT") for _ in range(L))
